@@ -122,6 +122,24 @@ CHECKS.update({
   text="The include-closure clause (no produced file refers to a file generation does not produce) is model-checked for every world of the bounded model and every recorded run is validated against it. 'Compiles without diagnostics' is a fact only a compiler establishes: the spec states it as an event postcondition and TLC enumerates the inputs, so this clause is bounded-exhaustive exploration, not model checking: every generated header is compiled alone (C11 gcc+clang, inside a C++ TU, C++14/17/20 g++ and clang++, plus a TU expanding the header's own macros) with the flag set read from verification/cmake/compiler_flag_sets/common.cmake, every Python module imported alone with warnings as errors, for c, cpp (4 standards) and py with support enabled and omitted; plus seeded random larger namespace sets and every DSDL tree shipped in the repository.",
   note=TB + "gcc 12 / clang 14 as the compilers; names drawn from keyword / reserved-pattern / builtin lists of each language (the thorough tier adds non-macro library names); two recorded known findings (C++ standard-library macro names unstropped; -Wnested-anon-types for C unions inside a C++ TU)."),
 })
+
+# ---- round 2 of the build (DESIGN.md section 14): what was added to the checks above
+SYS = (" The run is also a state machine over the file system (specs/NnvgRun*.tla, I=>P by TLC with six negative controls): every generator run of the repository's own "
+       "415-test suite (recorded through an audit hook and wrappers of the public entry points, no change to the repository) and of a CLI/API driver (all run modes x "
+       "--no-overwrite x --file-mode x support options x output directory spelled absolute / relative / with .. / through a symlink) is validated by the trace spec for this property's sys.* clauses.")
+AMEND = {
+ "C04": dict(technique="; Apalache inductive invariants over unbounded integers for the cursor machines' memory argument (CursorInd / CursorIndSer, each with a refuted negative control)",
+             text=" For buffers and nesting of ANY size the memory argument of the decoder frames (clamped nested-call pointer) and of the encoder (single up-front capacity check) is an inductive invariant checked by Apalache; the raw-cursor and compiled-out-check variants are refuted."),
+ "C14": dict(technique="; TLA+ proof system (tlapm) for the integer operators on all naturals (ArithLemmas, 33 obligations); explicit object machine of the Python Serializer/Deserializer (PySupport: call histories, forks, every fragmentation) with I=>P, behaviour replay and history trace validation",
+             text=" SatBits / PadUp / bits2bytes are proved for all naturals with the TLA+ proof system. The Python support library's Serializer and Deserializer are specified as objects with a history (cursor, shared buffer, forks, fragmented input): TLC checks the implementation-shaped machine against the contract for all call sequences up to 4 calls and all fragmentations of inputs up to 2-4 bytes, replays thousands of model behaviours on the real objects and validates recorded random histories of 20-60 calls step by step."),
+ "C08": dict(technique="; system-level run spec NnvgRun with trace validation of the repository's own test-suite runs", text=SYS),
+ "C11": dict(technique="; system-level run spec NnvgRun with trace validation of the repository's own test-suite runs", text=SYS),
+ "C12": dict(technique="; system-level run spec NnvgRun with trace validation of the repository's own test-suite runs", text=SYS),
+}
+for _pid, _a in AMEND.items():
+    CHECKS[_pid]["technique"] += _a["technique"]
+    CHECKS[_pid]["text"] += _a["text"]
+CHECKS["C20"]["note"] = CHECKS["C20"]["note"].replace("a directory URL means its index.html", "a directory URL denotes the index.html inside it and nothing else (web-server convention)")
 NOT_YET = {}
 props = [json.loads(l) for l in open(V / "properties.jsonl")]
 checks, na = [], []
